@@ -62,6 +62,10 @@ pub mod writers;
 
 pub mod error_info;
 
+#[cfg(feature = "verif_hooks")]
+#[doc(hidden)]
+pub mod verif_hooks;
+
 pub(crate) use crate::write_mode::EffectiveWriteMode;
 #[cfg(feature = "async")]
 pub use crate::write_mode::{DEFAULT_MESSAGE_CAPA, DEFAULT_POOL_CAPA};
